@@ -60,6 +60,11 @@ def _e_case(job):
             if exc: return job, f'bulk save_report raised {exc!r}'
             if r3 != bulk: return job, f'bulk with save_report returned {r3!r}, plain {bulk!r}'
             if not set(os.listdir(d)) <= {'cm_colors_bulk_report.html'}: return job, f'bulk save_report: files {os.listdir(d)}'
+            # asked again in the same directory (a report of an earlier call exists): still only the documented files
+            _fd_capture(lambda: bulkmod.make_readable_bulk([(sp_in, bg, large)], mode=mode, very_readable=very, save_report=True))
+            _fd_capture(lambda: lib.ColorPair(sp_in, bg, large).make_readable(mode, very, save_report=True))
+            _fd_capture(lambda: lib.ColorPair(sp_in, bg, large).make_readable(mode, very, save_report=True))
+            if not set(os.listdir(d)) <= {'cm_colors_bulk_report.html', 'cm_colors_quick_report.html'}: return job, f'repeated save_report in one directory: files {sorted(os.listdir(d))}'
         finally:
             os.chdir(cwd)
     return job, None
